@@ -1,6 +1,7 @@
 package main
 
 import (
+	"sort"
 	"fmt"
 	"go/ast"
 	"go/token"
@@ -115,25 +116,20 @@ func c14R1(p *Prog, r *Report) {
 		fc := p.Func("stats", "trafficCollector", name)
 		info := fc.Info()
 		seen := map[string]bool{}
-		for _, v := range fc.G.V {
-			if v.Node == nil {
-				continue
+		// the Traffic value being returned, built as a literal or field by field
+		for _, bv := range builtValues(fc, "Traffic") {
+			var names []string
+			for fname := range bv.Fields {
+				names = append(names, fname)
 			}
-			inspectNoLit(v.Node, func(n ast.Node) bool {
-				kv, ok := n.(*ast.KeyValueExpr)
-				if !ok {
-					return true
-				}
-				id, ok := kv.Key.(*ast.Ident)
-				if !ok {
-					return true
-				}
-				counter, _, _, isAtomic := atomicCallOn(info, fc.Resolve(kv.Value))
-				seen[id.Name] = true
-				r.Check(isAtomic && counter == lowerFirst(id.Name), rule, fmt.Sprintf("stats.(*trafficCollector).%s:%s", name, id.Name), p.posStr(kv.Pos()),
-					"reads counter "+counter, fmt.Sprintf("Traffic.%s is filled from %s (expected counter %s)", id.Name, exprStr(kv.Value), lowerFirst(id.Name)))
-				return true
-			})
+			sort.Strings(names)
+			for _, fname := range names {
+				val := bv.Fields[fname]
+				counter, _, _, isAtomic := atomicCallOn(info, fc.Resolve(val))
+				seen[fname] = true
+				r.Check(isAtomic && counter == lowerFirst(fname), rule, fmt.Sprintf("stats.(*trafficCollector).%s:%s", name, fname), p.posStr(val.Pos()),
+					"reads counter "+counter, fmt.Sprintf("Traffic.%s is filled from %s (expected counter %s)", fname, exprStr(val), lowerFirst(fname)))
+			}
 		}
 		for _, f := range tf {
 			if !seen[f] {
